@@ -160,6 +160,19 @@ CLAIMED = {
           "tones within half a fine bin of a coarse-channel edge (aliased by the critically sampled PFB)."),
     technique="TLA+ model (TLC exhaustive) + spec-generated configurations recorded by the implementation, FFT peak projected onto the model's bins",
     design_ref="DESIGN.md 4.12, 5 (C07)", engine="registration"),
+ "C05": dict(
+    text=("FrameAxes.tla puts frames on an integer grid (quarter channels, quarter time steps): fs, ts, ts_ext, fmin/fmax/"
+          "fch1/fmid, index of every quarter-channel position (both neighbours at exact halves), drift rates; TLC checks "
+          "StrictlyIncreasing, UniformSpacing, Fch1IsEndpoint, RoundTrip, NearestChannel, TwinAxesEqual, DerivedFromGrid "
+          "for all (F, T, orientation, band position, construction route). Every abstract frame is built on real "
+          "(df, dt, f0) geometries (dyadic, BL hi-res at 6 GHz, decimal 0.1/0.7, MHz-scale, milli-Hz at 8 GHz) through "
+          "all five routes (sizes, shape, data/from_data, astropy quantities in kHz/ms/MHz/GHz, backend parameters) and "
+          "every attribute / conversion is placed on TLC's grid with exact Fractions; the opposite-orientation twin must "
+          "have the same axes and produce the same injected data."),
+    note=("Trusted: TLC, python Fractions; tolerance max(1e-6 channel, 4 ulp of the absolute frequency) for frequencies, "
+          "4 ulp for times, 1e-14 relative for resolutions; injected-data equality of twins at 1e-9 + 256 ulp(f)/df."),
+    technique="TLA+ model (TLC exhaustive) + spec-generated frames instantiated on the implementation",
+    design_ref="DESIGN.md 4.1, 5 (C05)", engine="frameaxes"),
 }
 
 NOT_YET = "check not built yet in this round (planned, see DESIGN.md 5); no claim is made"
